@@ -121,7 +121,13 @@ fn check(t: &mut Tape, ctx: &mut Ctx) -> CheckResult {
     let sz = ctx.sizes;
     let al = gen::alpha(t, &sz);
     let consistent = t.chance(1, 2);
-    let l = gen::lax(t, &sz, al, consistent, ctx);
+    let mut l = gen::lax(t, &sz, al, consistent, ctx);
+    if ctx.medium && t.chance(1, 2) {
+        // many more recorded pairs than nodes (repeated and redundant identifications)
+        let extra = gen::pending_pairs(t, &l.d, 5 * ctx.medium_t, consistent);
+        l.q.extend(extra);
+        ctx.class("many-pending-pairs");
+    }
     gen::classify(&l.d, ctx);
     // half of the starting diagrams are built through the builder calls (the pairs are recorded by `unify`)
     let via_api = t.chance(1, 2);
